@@ -10,14 +10,21 @@ RULE = ('stream args: selection arguments (all/empty/comma strings with blanks/l
         'the 8 documented names in the thorough tier) applied with select(flags=...) to synthetic v4, v3 and v2 data '
         'sets whose stored flag bytes run through all 256 values; a case is one (format, argument) pair, non-trivial '
         'when the argument names at least one flag, distinct by (format, canonical argument).  stream v4cal: random '
-        'v4 data sets (2-3 antennas, random chunking) with random stored flag bytes (all 8 bits), lost chunks of '
-        'correlator_data / flags / weights / weights_channel, opened without calibration or with applycal = G and/or '
+        'v4 data sets (2-3 antennas, 3-6 dumps; chunk layouts drawn independently per stored array, or related to the '
+        'flags grid: same grid / every boundary shifted / same block sizes in another order / one boundary moved, '
+        'incl. layouts where a lost chunk has the shape of a flags chunk and lies across two of them - forced on every '
+        'seed) with random stored flag bytes (all 8 bits), lost chunks of '
+        'correlator_data / flags / weights / weights_channel (the set of elements they cover is computed by the model '
+        'from the layout, wire 163), opened without calibration or with applycal = G and/or '
         'B products whose solutions are powers of two with NaN inputs / NaN band edges / a second B event; then a '
         'random history of 5-8 select() calls (flags= present or absent, selections with and without postproc and '
         'data_lost, weights=, dumps/channels/pol/ants/corrprods/reset); after EVERY call d.raw_flags, d.flags, d.vis '
         'and d.weights are compared with the extracted model; a case is one (data set, history prefix), non-trivial '
         'when the data set has a lost chunk or an invalid correction inside the current selection, distinct by '
-        '(configuration, step).  stream concat: ConcatenatedDataSet of 2-3 members (v4+v4, v3+v3, v2+v2, v3+v4; stored '
+        '(configuration, step).  stream threads: select(flags=...) on a v4 data set, then the FIRST read of the new flags '
+        'indexer by 2-3 threads with a forced interleaving (the first reader is held inside the transform chain of the '
+        'indexer object while the others read); every reader must get the boolean (raw & mask) != 0; a case is one '
+        '(selection, pause position, number of late readers, dump selection).  stream concat: ConcatenatedDataSet of 2-3 members (v4+v4, v3+v3, v2+v2, v3+v4; stored '
         'flag bytes cover 0..255 in every member; v4 members with a lost chunk or opened with applycal; members '
         'optionally pre-selected on their own with flags= / weights= before the concatenation; shuffled input order) '
         'under a history of 6-20 select() calls on the whole (flags= in every spelling incl. the empty ones \'\', [], (); '
@@ -31,6 +38,10 @@ ASSUMPTIONS = ['v2/v3 files without a flags_description table (the default descr
                '(G constant in time, B piecewise constant in time with NaN only at band edges or for whole inputs); '
                'the general derivation of corrections from solutions is C13/C14',
                'v4cal stream: correction factors are powers of two, so vis and weights are compared exactly',
+               'v4cal stream: no preselect window, all four arrays have the same number of dumps, no separate flags '
+               'stream, npy chunk store (the lost-map theorems hold for any window and phantom dumps; C06 generates them)',
+               'threads stream: only the first read of one flags indexer is forced to interleave (select() concurrent '
+               'with reads is C20 / C17)',
                'concat stream: all members of a concatenation lie in one subarray and one spectral window (checked when '
                'the fixture is built); the time / frequency / product selection of the whole is taken from the data set '
                '(dumps, channels, _corrprod_keep) - that it is right is C02 / C19; vis and weights are compared with what '
@@ -439,7 +450,7 @@ def replay(ctx, doc):
 # ---------------------------------------------------------------------------------------------------------------
 THREAD_TRIALS = [dict(arg='cam', pause_at=0), dict(arg=['static', 'cal_rfi', 'postproc'], pause_at=1),
                  dict(arg='all', pause_at=0), dict(arg='data_lost', pause_at=0, dumps=[1, 4], late=2)]
-PAUSE_S = 0.3       # how long the first reader waits inside the transform chain for the late readers to come back
+PAUSE_S = 0.5       # how long the first reader waits inside the transform chain for the late readers to come back
 
 
 def gen_thread_trial(rng):
